@@ -104,11 +104,16 @@ static void run_one(int idx, FILE *out, void *vctx) {
     }
     if(!nret) fputc('-', out);
     int cl = 0;
+    int bad0 = env_bad_closes;
     if(ok && (!failed || k->recover)) cl = zck_close(zck);
+    /* a caller that opens something between zck_close and zck_free gets the lowest free descriptor number - the one the
+     * writer's temporary file had; the read-back below goes through that descriptor */
+    int vfd = cl ? dup(ofd) : -1;
     fprintf(out, " nrets=%d fail=%d close=%d written=%zu werr=", nret, failed, cl, pos);
     const char *e = zck_get_error(zck);
     put_hex(out, e, strlen(e) > 60 ? 60 : strlen(e));
     zck_free(&zck);
+    fprintf(out, " badclose=%d", env_bad_closes - bad0);
     if(k->nplan || k->trace) {
         env_enable(false);
         fprintf(out, " mismatch=%d calls=%d", env_plan_mismatch, env_calls());
@@ -128,9 +133,10 @@ static void run_one(int idx, FILE *out, void *vctx) {
                 if(nfd != i) { dup2(nfd, i); real_close(nfd); }
             }
         }
-        real_lseek(ofd, 0, SEEK_SET);
+        int rfd = vfd >= 0 ? vfd : ofd;
+        real_lseek(rfd, 0, SEEK_SET);
         zckCtx *v = zck_create();
-        int vo = zck_init_read(v, ofd);
+        int vo = zck_init_read(v, rfd);
         int val = vo && readback ? zck_validate_checksums(v) : 0;
         fprintf(out, "V %d open=%d validate=%d\n", idx, vo, val);
         if(vo && k->meta) {
@@ -144,7 +150,7 @@ static void run_one(int idx, FILE *out, void *vctx) {
         int **sc, *ln;
         int ns = readback ? parse_scheds(k->scheds, &sc, &ln) : 0;
         for(int s = 0; s < ns; s++) {
-            read_res r = lib_read_all(ofd, sc[s], ln[s], k->content.n * 2 + 65536, false);
+            read_res r = lib_read_all(rfd, sc[s], ln[s], k->content.n * 2 + 65536, false);
             fprintf(out, "R %d sched=%d", idx, s);
             read_res_print(&r, out, false);
             fputc('\n', out);
@@ -152,6 +158,7 @@ static void run_one(int idx, FILE *out, void *vctx) {
         }
     }
     blob_free(&f);
+    if(vfd >= 0) real_close(vfd);
     real_close(ofd);
 }
 
